@@ -6,10 +6,10 @@ package specgen
 // Kinds of schema.
 var Kinds = []string{
 	"string", "date-time", "date", "integer", "int32", "int64", "number", "float", "double", "boolean",
-	"arr-string", "arr-int64", "arr-number", "arr-datetime", "arr-refobj", "arr-inlineobj", "arr-refarr", "arr-any",
+	"arr-string", "arr-int64", "arr-number", "arr-datetime", "arr-refobj", "arr-inlineobj", "arr-refarr", "arr-inlinearr", "arr-any",
 	"object", "object-empty", "object-addl-true", "object-addl-string", "object-addl-refobj", "any",
 	"allOf-ref-inline", "allOf-inline-ref", "allOf-ref-ref", "allOf-inline-inline",
-	"oneOf-plain", "oneOf-disc", "oneOf-disc-map", "oneOf-disc-partialmap", "oneOf-disc-namemap", "oneOf-plain-shared",
+	"oneOf-plain", "oneOf-disc", "oneOf-disc-map", "oneOf-disc-partialmap", "oneOf-disc-namemap", "oneOf-plain-shared", "object-oneway",
 }
 
 var Positions = []string{"query", "header", "path", "reqbody", "respbody", "resphdr", "prop", "item", "addl", "comp"}
@@ -71,6 +71,8 @@ func KindSchema(kind string) (M, map[string]M) {
 	case "arr-refarr":
 		aux["AuxArr"] = Arr(Prim("string", ""))
 		return Arr(Ref("schemas", "AuxArr")), aux
+	case "arr-inlinearr":
+		return Arr(Arr(Prim("string", ""))), aux
 	case "arr-any":
 		return Arr(M{}), aux
 	case "object":
@@ -114,6 +116,10 @@ func KindSchema(kind string) (M, map[string]M) {
 		aux["AuxA"], aux["AuxB"], aux["AuxC"] = a, b, c
 		disc := M{"propertyName": "kind", "mapping": M{"first": "#/components/schemas/AuxA", "second": "#/components/schemas/AuxB"}}
 		return M{"oneOf": L{Ref("schemas", "AuxA"), Ref("schemas", "AuxB"), Ref("schemas", "AuxC")}, "discriminator": disc}, aux
+	case "object-oneway":
+		// required properties marked readOnly / writeOnly: still required of every document
+		return Obj([]string{"id", "secret", "r"}, M{"id": M{"type": "integer", "format": "int64", "readOnly": true}, "secret": M{"type": "string", "writeOnly": true},
+			"r": Prim("string", ""), "o": M{"type": "string", "readOnly": true}}), aux
 	case "oneOf-plain-shared":
 		// no discriminator; the alternatives share property names, each has one
 		// required property of its own
